@@ -21,6 +21,11 @@
  *       the terminal API (unbuffered), the cursor is put at a SEED-derived position, and then the output buffer is set to
  *       BUF bytes (tickit_term_set_output_buffer; 0 = none).  Observation: every byte written so far (after the driver's
  *       start-up probes), tt->pen and the capability bits as the driver reports them.
+ *   suspend
+ *       third configuration only: tickit_term_pause(tt); tickit_term_resume(tt); tickit_term_flush(tt) - what an
+ *       application does around SIGTSTP or a sub-shell.  r=- pa=<chunks delivered by the pause> re=<chunks delivered by
+ *       the resume> fl=<chunk of tickit_term_flush> pen=<tt->pen>.  The bytes are read by the same VT screen: the next
+ *       flush meets whatever rendering state they leave behind.
  *   flush
  *       tickit_renderbuffer_flush_to_term(rb, tt); in the third configuration followed by tickit_term_flush(tt):
  *       r=ok out=<chunks delivered during the flush, ','-separated> fl=<chunk delivered by tickit_term_flush> pen=<tt->pen>
@@ -515,6 +520,25 @@ static void engine_op(int argc, char **argv)
     obs(" caps=%d", (v_rgb8 ? 1 : 0) | (v_colon ? 2 : 0));
     x_reset();
     tickit_term_set_output_buffer(tt, (size_t)bufsz);
+    return;
+  }
+  if(strcmp(op, "suspend") == 0 && argc == 1) {
+    if(!x_mode || !tt) { obs("bad-op"); return; }
+    x_reset();
+    tickit_term_pause(tt);
+    size_t paused = x_nchunks;
+    tickit_term_resume(tt);
+    size_t resumed = x_nchunks;
+    tickit_term_flush(tt);
+    obs("r=- pa=");
+    x_obs_chunks(0, paused, ',');
+    obs(" re=");
+    x_obs_chunks(paused, resumed, ',');
+    obs(" fl=");
+    x_obs_chunks(resumed, x_nchunks, ',');
+    obs(" pen=");
+    x_obs_pen();
+    x_reset();
     return;
   }
   if(strcmp(op, "flush") == 0 && argc == 1 && x_mode) {
